@@ -186,7 +186,8 @@ def corr(ctx, tag, fn, cases, ie, oe, eqb, key=None, nontrivial=None):
         k = key(i) if key else repr(i)
         ctx.case((tag, k), nontrivial=(nontrivial(i, o) if nontrivial else True))
     ctx.count("cases:" + tag, len(cases))
-    bad = ctx.diff_cases("c14_" + tag, HEADER, fn, cases, ie, oe, eqb, shard=150)
+    ctx.log("correspondence", tag, len(cases), "cases")
+    bad = ctx.diff_cases("c14_" + tag, HEADER, fn, cases, ie, oe, eqb, shard=max(1, min(150, -(-len(cases) // 16))))
     if bad is None:
         return None
     ok = not bad
